@@ -102,7 +102,7 @@ Proof.
 Qed.
 
 (* 2 *)
-Theorem register_refused_iff : forall s0 s name descr, fresh s0 -> rl_reach s0 s ->
+Theorem rl_register_refused_iff : forall s0 s name descr, fresh s0 -> rl_reach s0 s ->
   snd (rl_step s (EvRegister name descr)) = ORefused <->
   (registered (rl_reg s) name = true \/ busy s = true).
 Proof.
@@ -113,7 +113,7 @@ Proof.
   destruct H; discriminate.
 Qed.
 
-Theorem register_accepted_iff : forall s0 s name descr, fresh s0 -> rl_reach s0 s ->
+Theorem rl_register_accepted_iff : forall s0 s name descr, fresh s0 -> rl_reach s0 s ->
   snd (rl_step s (EvRegister name descr)) = OAccepted <->
   (registered (rl_reg s) name = false /\ busy s = false).
 Proof.
@@ -166,7 +166,7 @@ Proof.
   destruct e as [name descr| | | | |];
     try (apply only_register_changes_view; intros n d; discriminate).
   rewrite refused_changes_nothing; [reflexivity|].
-  apply (register_refused_iff s0 s name descr F R). right. exact B.
+  apply (rl_register_refused_iff s0 s name descr F R). right. exact B.
 Qed.
 
 (* [busy] holds before every step of the run *)
@@ -325,8 +325,8 @@ Example drain_history_final :
 Proof. vm_compute. repeat split. Qed.
 
 Print Assumptions flag_is_busy.
-Print Assumptions register_refused_iff.
-Print Assumptions register_accepted_iff.
+Print Assumptions rl_register_refused_iff.
+Print Assumptions rl_register_accepted_iff.
 Print Assumptions refused_changes_nothing.
 Print Assumptions only_register_changes_view.
 Print Assumptions view_frozen_while_busy.
